@@ -117,6 +117,9 @@ CALL_FACTS = {
     ("_generate_default_cell_tree", None): (False, True, False,
                                             "Importance._generate_default_cell_tree(particle): builds fresh nodes for a "
                                             "Particle already validated, stores them in self._tree / _particle_importances"),
+    ("_link_to_cell", None): (False, True, False,
+                              "HalfSpace._link_to_cell(cell): assigns _cell on this node and, recursively, on the sides that have "
+                              "none yet; attribute reads and assignments on HalfSpace objects only, no raise statement"),
     ("_delete_trailing_comment", None): (False, True, False, "PaddingNode._delete_trailing_comment: list surgery, no raise"),
     ("clear", "self._scattering_laws"): (False, True, False, "list.clear"),
     ("append", "self._scattering_laws"): (False, True, False, "list.append"),
@@ -1009,7 +1012,15 @@ class Translator:
             return self.validators[key]
         fd = self.ix.modfuncs.get(key)
         if fd is None:
-            raise TranslateError(f"validator {name} not found at module level of {file}")
+            # a function of the class body used by name in the decorators below it
+            for d in self.props:
+                if d["validator"] == name and d["file"] == file:
+                    for n in self.ix.classes[d["cls"]]["node"].body:
+                        if isinstance(n, ast.FunctionDef) and n.name == name:
+                            fd = n
+                    break
+        if fd is None:
+            raise TranslateError(f"validator {name} not found at module level or in the class body in {file}")
         if len(fd.args.args) != 2:
             raise TranslateError(f"validator {name}: expected (self, value)")
         # class of `self` inside a module-level validator: the class (in the same file) whose decorators name it
